@@ -47,6 +47,13 @@ def op_of(repo, cls):
     return {"operator.lt": operator.lt, "operator.gt": operator.gt, "operator.le": operator.le, "operator.ge": operator.ge}.get(A.norm(r))
 
 
+def _has_conjunct(t, text) -> bool:
+    """t is `text` or an and-chain one of whose conjuncts is `text` (so t true implies text true)"""
+    if A.norm(t) == text:
+        return True
+    return isinstance(t, ast.BoolOp) and isinstance(t.op, ast.And) and any(_has_conjunct(v, text) for v in t.values)
+
+
 def tripped_latch(ctx, repo, rule="C30.D2-tripped-follows-decision"):
     """self._tripped is a latch: set True only where _should_suspend(value) held, cleared only where _should_resume(value)
     held (or suspend did not) - a value between the two thresholds changes nothing."""
@@ -56,9 +63,9 @@ def tripped_latch(ctx, repo, rule="C30.D2-tripped-follows-decision"):
         if isinstance(s, (ast.Assign, ast.AugAssign, ast.AnnAssign)) and any(A.chain(t) == "self._tripped" for t in A.targets_of(s)):
             val = s.value.value if isinstance(s, ast.Assign) and isinstance(s.value, ast.Constant) else None
             if val is True:
-                w = q.guard_true_dominates(g, s, lambda t: A.norm(t) == "self._should_suspend(value)", "T")
+                w = q.guard_true_dominates(g, s, lambda t: _has_conjunct(t, "self._should_suspend(value)"), "T")
             elif val is False:
-                w = q.guard_true_dominates(g, s, lambda t: A.norm(t) == "self._should_resume(value)", "T")
+                w = q.guard_true_dominates(g, s, lambda t: _has_conjunct(t, "self._should_resume(value)"), "T")
             else:
                 w = [f"`{A.short(s, 60)}` recomputes the flag from the current value"]
             ctx.ob(rule, cname(call, s), w is None and val in (True, False),
@@ -139,8 +146,17 @@ def run(ctx):
     ok = A.norm(ret_expr(fs)) == "value != self.expected_value" and A.norm(ret_expr(fr)) == "self.allow_resume and value == self.expected_value"
     ctx.ob("C30.D1-conditions-match-documentation", f"{SU}:SuspendWhenChanged truth table", ok, "" if ok else "changed-value conditions changed", where=where(fs, fs.node))
     call = tripped_latch(ctx, repo)
+    # 'grants resumption only when its documented resume condition holds': a release belongs to the trip it ends.  The release
+    # event of a trip is forgotten in the very call that schedules it, so a new trip during the settle time gets its own event and
+    # its own suspension request (shared rule with C11.D4).
+    from . import c11
+
+    n0 = len(ctx.obligations)
+    c11.d4_suspender_request(ctx, repo)
+    for o in ctx.obligations[n0:]:
+        o["rule"] = o["rule"].replace("C11.D4-trip-latch", "C30.D2-release-belongs-to-its-trip").replace("C11.D4-suspender-request", "C30.D2-request-once-per-trip")
     tops = [s for s in A.walk_stmts(call.node.body) if isinstance(s, ast.If) and A.norm(s.test) == "self._should_suspend(value)"]
-    ok = bool(tops) and tops[0].orelse and isinstance(tops[0].orelse[0], ast.If) and A.norm(tops[0].orelse[0].test) == "self._should_resume(value)"
+    ok = bool(tops) and tops[0].orelse and isinstance(tops[0].orelse[0], ast.If) and _has_conjunct(tops[0].orelse[0].test, "self._should_resume(value)")
     ctx.ob("C30.D2-tripped-follows-decision", cname(call, None, "if suspend ... elif resume ..."), ok, "" if ok else "decision structure changed", where=where(call, call.node))
     early = [s for s in A.walk_stmts(call.node.body) if isinstance(s, ast.If) and A.norm(s.test) == "self.RE is None" and isinstance(s.body[0], ast.Return)]
     ctx.ob("C30.D2-tripped-follows-decision", cname(call, None, "no effect when not installed"), bool(early), "" if early else "acts while not installed", where=where(call, call.node))
@@ -206,4 +222,6 @@ MUTANTS = [
     ("bool-low suspends on truthy", [(S, "class SuspendBoolLow(SuspenderBase):", "class SuspendBoolLow(SuspenderBase):"), (S, "    def _should_suspend(self, value):\n        return not bool(value)\n\n    def _should_resume(self, value):\n        return bool(value)", "    def _should_suspend(self, value):\n        return bool(value)\n\n    def _should_resume(self, value):\n        return bool(value)")], "C30.D1"),
     ("changed-value resumes regardless of allow_resume", [(S, "        return self.allow_resume and value == self.expected_value", "        return value == self.expected_value")], "C30.D1"),
 ]
-BENIGN = []
+BENIGN = [
+    ("release announced only when tripped", [("suspenders.py", "            elif self._should_resume(value):", "            elif self._tripped and self._should_resume(value):")]),
+]
